@@ -206,6 +206,7 @@ where
     pub lit3: F<fn(E, E, E) -> List<E>>,
     pub count: F<fn(List<E>) -> u64>,
     pub forpush: F<fn(List<E>, u64) -> u64>,
+    pub find: F<fn(List<E>, E) -> u64>,
 }
 
 pub fn helper_source() -> String {
@@ -233,6 +234,14 @@ fn count_{x}(l: List[{ty}]) -> u64 {{
     let n = 0;
     for x in l {{ n = n + 1; }}
     n
+}}
+fn find_{x}(l: List[{ty}], v: {ty}) -> u64 {{
+    let i = 0;
+    for x in l {{
+        if x == v {{ return i; }}
+        i = i + 1;
+    }}
+    i
 }}
 fn forpush_{x}(l: List[{ty}], n: u64) -> u64 {{
     let c = 0;
@@ -295,6 +304,7 @@ where
             lit3: g!("lit3"),
             count: g!("count"),
             forpush: g!("forpush"),
+            find: g!("find"),
         }
     }
 }
@@ -609,6 +619,13 @@ where
             },
             Op::ForPush { h, n } => match self.h(*h) {
                 Some(l) => Obs::Num(f.forpush.call(l, *n)),
+                None => Obs::Skipped,
+            },
+            Op::ForFind { h, v } => match self.h(*h) {
+                Some(l) => {
+                    let e = E::from_m(v, &self.inner);
+                    Obs::Num(f.find.call(l, e))
+                }
                 None => Obs::Skipped,
             },
             Op::InnerPush { inner, v } => match self.inner.lists.iter().find(|(i, _)| i == inner) {
